@@ -7,7 +7,7 @@ CFG = {
                               "cached_block_stable", "next_monotone", "handoff_gap_free", "handoff_single_task",
                               "handed_increasing", "storage_never_sees_gap", "available_is_readable", "get_spec",
                               "cache_bound", "regress_rejected", "restart_from_durable", "reachable_closed", "gen_next_eq", "gen_contains_eq", "gen_verify_ok_iff",
-                              "gen_truncate_eq", "gen_try_push_eq", "gen_update_persisted_eq"],
+                              "gen_truncate_eq", "gen_try_push_eq", "gen_update_persisted_eq", "gen_block_eq"],
         "technique": "Lean 4: inductive invariant of a labelled transition system transcribed from block_store.rs / "
                      "manager.rs (one event per critical section), proved for all event lists; CACHE_CAPACITY "
                      "and the bodies of BlockStoreState::{next,contains,head,verify} / BlockStore::{try_push,update_persisted,truncate_cache} "
